@@ -204,5 +204,4 @@ def expr(c):
 
 
 K.FAMILIES["tarea"] = (gen_case, run_impl, expr)
-if "TimeArea" not in K.HEADER:
-    K.HEADER = K.HEADER.replace(" Run.", " TimeArea Run.")
+K.add_imports("Distrib", "Kinds", "TimeArea")
